@@ -213,7 +213,7 @@ macro_rules! cache_hist {
         #[kani::stub(crate::internal::stream::write_data_to_stream, model_write)]
         #[kani::stub(crate::internal::stream::resize_stream, model_resize)]
         #[kani::stub(crate::internal::stream::Stream::minialloc, sacc::stub_upgrade)]
-        #[kani::unwind(42)]
+        #[kani::unwind(66)]
         fn $name() {
             let mut p = small_parts(&[EOC, EOC], 0, L0 as u64, 1, 64);
             let mut model = init(&p);
